@@ -358,6 +358,7 @@ func (pc *pCtx) p7Lockset(s *pSite, wantRaces, wantOrder bool) {
 		// what each context writes and whether it talks to the downstream
 		writes := map[string]map[*ssa.Alloc]bool{}
 		delivers := map[string]bool{}
+		deliversNext := map[string]bool{}
 		for ci, cd := range ctxs {
 			if cd.name == "teardown" {
 				continue
@@ -374,6 +375,9 @@ func (pc *pCtx) p7Lockset(s *pSite, wantRaces, wantOrder bool) {
 						}
 						if call, ok := ins.(*ssa.Call); ok && call.Common().IsInvoke() && s.isDest(call.Common().Value) {
 							delivers[cn] = true
+							if strings.HasPrefix(call.Common().Method.Name(), "Next") {
+								deliversNext[cn] = true
+							}
 						}
 					}
 				}
@@ -383,6 +387,13 @@ func (pc *pCtx) p7Lockset(s *pSite, wantRaces, wantOrder bool) {
 		competitor := func(fn *ssa.Function, al *ssa.Alloc) string {
 			if len(inCtxs[fn]) >= 2 {
 				return fmt.Sprintf("the function runs in %d concurrent contexts", len(inCtxs[fn]))
+			}
+			// another context that also takes (rewrites) the cell and hands values to the downstream: the two
+			// hand-overs must be ordered with each other (the count path of a buffer against the flush of its timer)
+			for cn2, ws := range writes {
+				if !inCtxs[fn][cn2] && al != nil && ws[al] && deliversNext[cn2] {
+					return "context " + strings.SplitN(cn2, ":", 2)[1] + " also takes " + cellName(al) + " and delivers values"
+				}
 			}
 			// (a take in one function overtaken by a terminal notification of another context is an arrival order of
 			// its own - SampleWhen's tick against the completion of the source - and is not flagged)
